@@ -105,10 +105,11 @@ def R2_flip_on_cross(run):
     fn = facts.need_fn("manager::tick_manager::next_tick_cross_update")
     run.touch(fn)
     pv = prov_of(fn)
-    ws = [w for w in writes.field_stores(facts) if w["fn"] is fn and w["adt"] == "state::tick::TickUpdate" and w["last"]]
+    # stores into an update copied from the tick, or one struct literal - the same three values either way
+    ws = writes.struct_writes(facts, fn, pv, "state::tick::TickUpdate")
     seen = set()
     for w in ws:
-        val = strip(pv._rvalue(w["rv"], w["block"], w["stmt"], 0))
+        val = strip(w["val"])
         f = w["field"]
         if f in ("fee_growth_outside_a", "fee_growth_outside_b"):
             side = f[-1]
@@ -117,10 +118,9 @@ def R2_flip_on_cross(run):
             run.check("R2", "flip:" + f, ok, "crossing stores %s := %s, expected fee_growth_global_%s.wrapping_sub(tick.%s)" % (f, sh(val, 100), side, f), loc=fn.loc(w["line"]),
                       detail="%s := global_%s wrapping_sub tick.%s" % (f, side, f))
             seen.add(f)
-        elif f == "reward_growths_outside":
+        elif f == "reward_growths_outside" and w["how"] != "literal":
             # update.reward_growths_outside[i] := reward_infos[i].growth_global_x64.wrapping_sub(tick.reward_growths_outside[i])
-            st = fn.blocks[w["block"]]["s"][w["stmt"]]
-            didx = [pv.local(e["ix"], w["block"], w["stmt"]) for e in st["p"]["p"] if isinstance(e, dict) and "ix" in e]
+            didx = w["idx"]
             ok = val[0] == "call" and val[1].endswith("wrapping_sub") and len(didx) == 1
             if ok:
                 g, o = strip(val[2][0]), strip(val[2][1])
